@@ -8,7 +8,7 @@
 (* labels).  Describe(name, unit) may come before or after the first use of   *)
 (* a key of that name and may be repeated (the last description counts).      *)
 (* Touch(k) uses the key through the metrics macros: counter += amount,       *)
-(* gauge := amount, histogram records one sample of value 100.                *)
+(* gauge := amount, histogram records cnt samples of a value symbol.          *)
 (* Readout: counters that were incremented since the previous readout with    *)
 (* their delta (all registered counters when EmitZero), every registered      *)
 (* gauge with its last value, every registered histogram with the samples     *)
@@ -20,7 +20,9 @@
 (***************************************************************************)
 EXTENDS Integers, Sequences, FiniteSets, TLC, Json
 
-CONSTANTS Depth, EmitZero, DescUnits
+CONSTANTS Depth, EmitZero, DescUnits,
+          HistVals,     \* value symbols recorded into the histogram: subset of DOMAIN ClassOfSym
+          HistCounts    \* how many samples one Touch of the histogram records
 
 Keys == <<[kind |-> "c", name |-> "reqs", labels |-> <<>>],
           [kind |-> "c", name |-> "reqs", labels |-> <<<<"op", "get">>>>],
@@ -38,40 +40,61 @@ UnitName == [None |-> "None", Count |-> "Count", Percent |-> "Percent", Seconds 
              KilobitsPerSecond |-> "Kilobits/Second", BitsPerSecond |-> "Bits/Second",
              CountPerSecond |-> "Count/Second"]
 
+\* Histogram values are abstract symbols; the harness's table gives the numbers (v100 = 100,
+\* v1e6 = 10^6, v2e31 = 2^31, vmax = u32::MAX, vhuge = 10^12).  Every sample must be reported in a
+\* bucket whose mean (total / occurrences) is within 1/16 of the recorded value - of u32::MAX for
+\* larger values, which are documented to be capped - however many samples share the bucket
+\* (value x count may exceed 2^32 within one readout).
+ClassOfSym == [v100 |-> "v100", v1e6 |-> "v1e6", v2e31 |-> "v2e31", vmax |-> "vmax", vhuge |-> "vmax"]
+HClasses == {ClassOfSym[x] : x \in HistVals}
+
 VARIABLES unit,     \* name -> described metrics.rs unit ("None" = never described)
           reg,      \* registered keys
-          val,      \* counter: delta since the last readout; gauge: last value; histogram: samples since the last readout
+          val,      \* counter: delta since the last readout; gauge: last value
+          hval,     \* histogram key -> value class -> samples since the last readout
           hist
-vars == <<unit, reg, val, hist>>
+vars == <<unit, reg, val, hval, hist>>
 
-Init == unit = [n \in Names |-> "None"] /\ reg = {} /\ val = [i \in KI |-> 0] /\ hist = <<>>
+Init == /\ unit = [n \in Names |-> "None"] /\ reg = {} /\ val = [i \in KI |-> 0] /\ hist = <<>>
+        /\ hval = [i \in KI |-> [c \in HClasses |-> 0]]
 
 Describe(n, u) ==
     /\ unit' = [unit EXCEPT ![n] = u]
     /\ hist' = Append(hist, <<"Describe", n, u>>)
-    /\ UNCHANGED <<reg, val>>
+    /\ UNCHANGED <<reg, val, hval>>
 
 Touch(i) ==
     LET amount == Len(hist) + 1 IN
+    /\ Keys[i].kind # "h"
     /\ reg' = reg \cup {i}
-    /\ val' = [val EXCEPT ![i] = CASE Keys[i].kind = "c" -> @ + amount
-                                   [] Keys[i].kind = "g" -> amount
-                                   [] Keys[i].kind = "h" -> @ + 1]
+    /\ val' = [val EXCEPT ![i] = IF Keys[i].kind = "c" THEN @ + amount ELSE amount]
     /\ hist' = Append(hist, <<"Touch", i, amount>>)
-    /\ UNCHANGED unit
+    /\ UNCHANGED <<unit, hval>>
 
+\* cnt samples of the value sym are recorded
+TouchH(i, sym, cnt) ==
+    /\ Keys[i].kind = "h"
+    /\ reg' = reg \cup {i}
+    /\ hval' = [hval EXCEPT ![i][ClassOfSym[sym]] = @ + cnt]
+    /\ hist' = Append(hist, <<"Touch", i, 0, sym, cnt>>)
+    /\ UNCHANGED <<unit, val>>
+
+\* a histogram item's value: the samples per value class (classes without samples are not listed)
+HItem(i) == {<<c, hval[i][c]>> : c \in {cc \in HClasses : hval[i][cc] > 0}}
 Item(i) == [kind |-> Keys[i].kind, name |-> Keys[i].name, dims |-> Keys[i].labels,
-            unit |-> UnitName[unit[Keys[i].name]], v |-> val[i]]
+            unit |-> UnitName[unit[Keys[i].name]], v |-> IF Keys[i].kind = "h" THEN HItem(i) ELSE val[i]]
 Shown == {i \in reg : Keys[i].kind = "c" => (EmitZero \/ val[i] # 0)}
 
 Readout ==
     /\ val' = [i \in KI |-> IF Keys[i].kind = "g" THEN val[i] ELSE 0]
+    /\ hval' = [i \in KI |-> [c \in HClasses |-> 0]]
     /\ hist' = Append(hist, <<"Readout", {Item(i) : i \in Shown}>>)
     /\ UNCHANGED <<unit, reg>>
 
 Next ==
     \/ Len(hist) < Depth - 1 /\ \E n \in Names, u \in DescUnits : Describe(n, u)
     \/ Len(hist) < Depth - 1 /\ \E i \in KI : Touch(i)
+    \/ Len(hist) < Depth - 1 /\ \E i \in KI, sym \in HistVals, cnt \in HistCounts : TouchH(i, sym, cnt)
     \/ Readout
 
 Spec == Init /\ [][Next]_vars
